@@ -8,6 +8,7 @@ import (
 	"github.com/gogo/status"
 
 	"google.golang.org/grpc"
+	"google.golang.org/grpc/codes"
 )
 
 func UnaryServerInterceptor(
@@ -24,6 +25,13 @@ func UnaryServerInterceptor(
 	st, ok := status.FromError(err)
 	if !ok {
 		code := extgrpc.GetGrpcCode(err)
+		if code == codes.OK {
+			// A status with code OK cannot carry an error, nor
+			// details: the call would succeed (or WithDetails below
+			// would fail). The attached code still reaches callers
+			// that use the client interceptor, via the encoded error.
+			code = codes.Unknown
+		}
 		st = status.New(code, err.Error())
 		enc := errors.EncodeError(ctx, err)
 		st, err = st.WithDetails(&enc)
